@@ -696,6 +696,10 @@ func (g *gen) loop(d int) []Stmt {
 	} else {
 		l.K = g.newCounter()
 		l.N = int64(g.intn(0, bound, "bound"))
+		if kind == KFor && !g.ex("loop.for-le") && g.chance(40, "forle") {
+			g.feat("loop.for-le")
+			l.Le = true
+		}
 	}
 	// body may read the counter / foreach vars
 	saved := *g.sc
@@ -758,6 +762,12 @@ func (g *gen) loop(d int) []Stmt {
 	g.encl = g.encl[:len(g.encl)-1]
 	g.loopK = g.loopK[:len(g.loopK)-1]
 	*g.sc = saved
+	if l.K != nil && !g.ex("counter.read-after-loop") && g.chance(40, "readafter") {
+		// the value the counter is left with (after the failing test, a break, or a write by the body) is
+		// part of the loop's semantics
+		g.feat("counter.read-after-loop")
+		return append(pre, l, &Echo{Args: []Expr{&Lit{T: TStr, S: l.K.Name + "="}, l.K, &Lit{T: TStr, S: ";"}}})
+	}
 	return append(pre, l)
 }
 
@@ -784,7 +794,11 @@ func (g *gen) switchStmt(d int) Stmt {
 		}
 		v := int64(g.intn(-2, 8, "cv"))
 		if used[v] {
-			continue
+			if g.ex("switch.duplicate-label") || !g.chance(50, "dupcase") {
+				continue
+			}
+			// a label that occurs twice: the first case with it takes the subject, the later one is dead
+			g.feat("switch.duplicate-label")
 		}
 		used[v] = true
 		last := i == nc-1 && !(hasDefault && defPos == nc)
